@@ -31,6 +31,10 @@ R8  the receive path in the UNBUFFERED mode as well (= C17's ``r1_receive_discon
     receiver's flag DOWN (only the pump raises that flag; there is no pump for capacity 0), and the close code reported is taken
     from the event, not from ``client_disconnected_code`` (seeded s7-c18-1).
 
+R9  ``ready`` / ``closed`` are complementary views over (state, client-disconnected flag): both property bodies are evaluated
+    over every cell of {recorded state members} x {flag down, up}; ``ready`` => not ``closed``; ``closed`` == terminal state or flag
+    (auto-mutation seed sa-am01220: ``ready`` without the flag conjunct).
+
 ``disconnect_flag_prompt`` (flag raised before the pump's next suspension) is registered under C17 as its R6.
 
 Roles are derived, not named: the queue is the attribute initialised with
@@ -47,7 +51,7 @@ from typing import Dict, List, Optional, Set, Tuple
 from .. import flow
 from ..cfg import cfg_of
 from ..model import AnchorError, Func, UnknownIdiom, short
-from .c17_helpers import BUFRX, WS, WSModel, local_defs, possible
+from .c17_helpers import BUFRX, WS, WSModel, local_defs, possible, single_return_expr
 from .common import implied, single, strip_await, walk_self
 
 FLAG = 'client_disconnected'
@@ -1181,6 +1185,64 @@ def r7_receive_ignores_flag(run):
         raise AnchorError('receive path of WebSocket not found')
 
 
+def r9_status_views(run):
+    """``WebSocket.ready`` and ``WebSocket.closed`` are two views of the same pair (connection state, client-disconnected
+    flag of the receiver); a sender that only polls (the documented ``while ws.ready:`` loop) learns about a lost client from
+    ``ready`` alone.  Both property bodies are evaluated over the finite abstract state space
+    {members of the state enum the class records} x {flag down, flag up} (same three-valued evaluator as C17 R1; same-class
+    properties are looked through), and must satisfy
+
+    * ``closed``  ==  state is terminal (CLOSED or another recorded end state)  or  the flag is up;
+    * ``ready``   =>  not ``closed``  - in particular ``ready`` is false in every cell with the flag up;
+    * ``ready``   is true in (ACCEPTED, flag down) and false before the handshake completed.
+
+    A body that is not a function of (state, flag) alone is an unknown idiom.
+    W (auto-mutation seed sa-am01220): ``ready`` without the flag conjunct - buffered mode, accepted socket, the client
+    leaves while the responder runs ``while ws.ready: await asyncio.sleep(..)``: the loop never ends."""
+    p = run.project
+    ws = WSModel(p)
+    views = {}
+    for name in ('ready', 'closed'):
+        m = p.lookup_method(ws.cls.qual, name)
+        if m is None or not m.is_property():
+            raise AnchorError('%s.%s: property not found' % (WS, name))
+        body = single_return_expr(m)
+        if body is None:
+            raise UnknownIdiom('%s: the property is not a single return expression' % m.qual)
+        run.use(m)
+        table = {}
+        for cell in ws.all_cells():
+            vals = possible(body, ws.atom_for(m, cell))
+            if len(vals) != 1:
+                raise UnknownIdiom('%s: %s is not a function of (state, disconnect flag) alone (cell %s/%s)' % (
+                    m.qual, short(body, 80), cell[0], 'flag up' if cell[1] else 'flag down'))
+            table[cell] = next(iter(vals))
+        views[name] = (m, body, table)
+    terminal = set(ws.terminal_states())
+
+    def cs(cell):
+        return '%s/%s' % (cell[0], 'flag up' if cell[1] else 'flag down')
+
+    run.sample({'rule': 'R9', 'ready': {cs(c): v for c, v in views['ready'][2].items()}, 'closed': {cs(c): v for c, v in views['closed'][2].items()}})
+    mc, bc, tc = views['closed']
+    bad = [c for c in ws.all_cells() if tc[c] != (c[0] in terminal or c[1])]
+    run.check(not bad, 'closed is true exactly when the recorded state is terminal (%s) or the client-disconnected flag is up' % '/'.join(sorted(terminal)),
+              mc, bc, witness=['%s -> closed == %s' % (cs(c), tc[c]) for c in bad],
+              runtime_witness='ws.closed is False although the client left (or the server closed): a sender loop keeps sending into a dead socket')
+    mr, br, tr = views['ready']
+    bad = [c for c in ws.all_cells() if tr[c] and (c[0] in terminal or c[1])]
+    run.check(not bad, 'ready is false whenever the connection is closed or the client has disconnected (ready => not closed over every '
+              '(state, flag) cell)', mr, br, witness=['%s -> ready == True' % cs(c) for c in bad],
+              runtime_witness='buffered mode, accepted socket, the client disconnects while the responder only polls `while ws.ready:` - '
+                              'ready stays True and the loop never learns about the disconnect')
+    run.check(tr.get(('ACCEPTED', False)) is True, 'ready is true for an accepted connection whose client is still there', mr, br,
+              witness=['ACCEPTED/flag down -> ready == %s' % tr.get(('ACCEPTED', False))],
+              runtime_witness='`while ws.ready:` never runs its body on a healthy connection')
+    bad = [c for c in ws.all_cells() if c[0] == 'HANDSHAKE' and tr[c]]
+    run.check(not bad, 'ready is false before the connection was accepted', mr, br, witness=['%s -> ready == True' % cs(c) for c in bad],
+              runtime_witness='ws.ready is True in on_websocket before accept(): a send raises OperationNotAllowed')
+
+
 def check(run):
     run.assume('asyncio semantics: a task is preempted only at await / async for / async with; one consumer (the application) and one producer (the pump task)')
     run.assume('set_result() on a pending future and deque operations do not raise')
@@ -1201,3 +1263,5 @@ def check(run):
     run.rule('R8', _c17.r1_receive_disconnect, 'a disconnect event in hand on the receive path (buffered or not) is reported as WebSocketDisconnected, '
                                                'leaves the state terminal without relying on the pump\'s flag, and its close code is the event\'s '
                                                '(part of C17 R1, shared)', floor=5)
+    run.rule('R9', r9_status_views, 'ready/closed are complementary views over (state, client-disconnected flag): evaluated over every cell of '
+                                    'the abstract state space; ready => not closed, closed == terminal state or flag', floor=4)
